@@ -173,6 +173,15 @@ class NativeBackend(BackendBase):
         self.objects[name] = t
         return t
 
+    def uf_twin(self, t):
+        tw = _Table(self, t.name + ".ok", {"table": []}, t.ret)
+        tw.table = t.table
+        tw.default = t.default
+        self.keep.append(tw)
+        self.labels[id(tw)] = t.name + ".ok"
+        self.objects[t.name + ".ok"] = tw
+        return tw
+
     # ---- private state
     def set_field(self, obj, field, value):
         obj.__dict__[field] = value
@@ -217,6 +226,9 @@ class NativeBackend(BackendBase):
     def elem_all(self, lst, pred):
         """pred holds for every live element"""
         return all(pred(e) for e in lst)
+
+    def consecutive_all(self, lst, pred2):
+        return all(pred2(lst[i], lst[i + 1]) for i in range(len(lst) - 1))
 
     def list_eq(self, a, b):
         a, b = list(a), list(b)
